@@ -3,12 +3,32 @@
     lexemes of all tokens are independent of the line and position counters; any run of leading blanks of any kind and
     length leaves the token sequence unchanged (applied at any token boundary the tokenizer has reached, this is "changing
     the amount or kind of whitespace between two tokens"); '-' directly after an operand-ending token is the binary
-    operator; the parser drops comment tokens.  Not proved: removing a blank where two tokens cannot fuse, for all token
-    pairs (needs a per-pair fusion analysis), and that line numbers influence only error values (needs the simulation
-    theorem S).  Those are covered by the layout stream (minimal / random layouts, comments). *)
-From Pakhi Require Import Base Float64 Syntax Tables Lexer Parser.
-From Pakhi.Proofs Require Import LexLayout LexSpans.
+    operator; the parser drops comment tokens.  C11_only_reported_positions_move (Proofs/Compose.v, from Sim2.v): two
+    statement vectors that differ only in the line/file metadata of their statements and expressions -- what two layouts
+    of one token sequence produce -- run alike: same output, same world, same result, errors of the same kind located at
+    the mapped position.  Not proved: removing a blank where two tokens cannot fuse, for all token pairs (needs a per-pair
+    fusion analysis); covered by the layout stream (minimal / random layouts, comments). *)
+From Pakhi Require Import Base Float64 Syntax Tables Lexer Parser Interp.
+From Pakhi.Proofs Require Import LexLayout LexSpans WF Sim2Defs Sim2 Compose.
 Local Open Scope nat_scope.
+
+Theorem C11_only_reported_positions_move : forall pi code platform w fuel schedA schedB,
+  code_ok code -> code <> [] ->
+  match fst (run (map (smap idn pi) code) fuel schedA 0 (init_machine platform w)), fst (run code fuel schedB 0 (init_machine platform w)) with
+  | OutOfFuel, _ | _, OutOfFuel => True
+  | Ok nA, Ok nB => m_out nA = m_out nB ++ [] /\ m_world nA = m_world nB
+  | Err eA, Err eB =>
+      e_kind eA = e_kind eB /\ e_tag eA = e_tag eB /\ e_out eA = e_out eB ++ [] /\
+      (mkPos (e_line eA) (e_file eA) = pi (mkPos (e_line eB) (e_file eB)) \/
+       (e_kind eB = EUnexpected /\ e_line eA = e_line eB /\ e_file eA = e_file eB))
+  | Panic sA, Panic sB => sA = sB
+  | _, _ => False
+  end.
+Proof.
+  intros pi code platform w fuel sA sB Hc Hne.
+  apply (rename_invisible idn pi code platform w fuel sA sB Hc Hne); unfold idn; auto.
+Qed.
+Print Assumptions C11_only_reported_positions_move.
 
 Theorem C11_blank_is_no_token : forall c r line file prev, is_blank c = true ->
   consume (c :: r) line file prev = Ok (None, 1, if N.eqb c 10 then 1%N else 0%N).
